@@ -17,6 +17,9 @@ ALPH = "aZ9_-.!? é＿ｆ́"
 
 def gensym_ok(g):
     import hy
+    import hy.core.util as _u
+
+    _u._gensym_counter = 0  # deterministic re-execution of a path (the counter is the subject of part (a))
 
     r = hy.gensym(g)
     s = str(r)
@@ -35,13 +38,14 @@ def spec(tier, seed):
     maxlen = 2 if tier == "quick" else 3
     for i, ch in enumerate(ALPH):
         fn = "h%d" % i
-        L = ["def %s(rest: str) -> bool:" % fn, '    """', "    pre: len(rest) <= %d and all(c in ALPH for c in rest)" % (maxlen - 1), "    post: _", '    """',
-             "    return gensym_ok(%r + rest)" % ch]
+        sel = ", ".join("i%d" % k for k in range(maxlen - 1))
+        L = ["def %s(%s) -> bool:" % (fn, ", ".join("i%d: int" % k for k in range(maxlen - 1))), '    """', "    post: _", '    """',
+             "    return gensym_ok(%r + _sk.pick_str(ALPH, [%s]))" % (ch, sel)]
         obs.append(Ob(fn, "\n".join(L), sample="gensym(%r + rest), rest over %r, len(rest) <= %d" % (ch, ALPH, maxlen - 1), group="argument"))
     L = ["def hempty(x: int) -> bool:", '    """', "    post: _", '    """', "    return gensym_ok('') and gensym_ok(str(0))"]
     obs.append(Ob("hempty", "\n".join(L), sample="gensym('')", group="argument"))
-    tw = "\n".join(["def twin0(rest: str) -> bool:", '    """', "    pre: len(rest) <= 1 and all(c in ALPH for c in rest)", "    post: _", '    """',
-                    "    gensym_ok('a' + rest)", "    return False"])
+    tw = "\n".join(["def twin0(i0: int) -> bool:", '    """', "    post: _", '    """',
+                    "    gensym_ok('a' + _sk.pick_str(ALPH, [i0]))", "    return False"])
     obs.append(Ob("twin0", tw, twin=True, group="twin"))
 
     def extra(tier_, seed_, workdir):
@@ -80,7 +84,7 @@ def spec(tier, seed):
                 rec["message"] = "z3: %s" % (res[1],)
             recs.append(rec)
         # vacuity twin for the BMC: without the lock steps the property must be refutable
-        nolock = [s_ for s_ in steps if s_[0] not in ("ACQ", "REL")]
+        nolock = [("SKIP", s_[1], None) if s_[0] in ("ACQ", "REL") else s_ for s_ in steps]
         res = bmc.check(nolock, 2, 1)
         recs.append({"name": "bmc-twin-nolock", "verdict": "POST_FAIL" if res[0] == "sat" else "CONFIRMED", "twin": True, "sample": "same system with ACQ/REL removed must have a bad schedule",
                      "paths": 1, "queries": 1, "solver_s": 0.0, "group": "twin"})
